@@ -71,7 +71,7 @@ def corpus_cases(ctx):
     jobs = [(n, s, c) for n, s in A.CORPUS.items() for c in cfgs]
     ex = A.example_sources(REPO)
     for n, p in ex.items():
-        pick = cfgs if ctx.tier == "thorough" else rnd.sample(cfgs, 2)
+        pick = cfgs if ctx.tier == "thorough" else rnd.sample(cfgs, 1)
         jobs += [(n, p, c) for c in pick]
     out, skipped, compiled = [], {}, 0
     seen = set()
@@ -95,6 +95,11 @@ def corpus_cases(ctx):
                             term=term, L=L, C=C, cd=cd, fresh=fresh))
     ctx.corr["corpus_compiled"] = compiled
     ctx.corr["corpus_skipped"] = skipped
+    unexpected = {k: v for k, v in skipped.items()
+                  if k not in ("transient:EvmVersionException", "ex/abstract/basic/abstract_module.vy:FunctionDeclarationException")}
+    if unexpected:
+        ctx.violation("correspondence-broken", "corpus contracts no longer compile (assembler tie not exercised on them)",
+                      {"failures": unexpected})
     return out
 
 
@@ -229,7 +234,7 @@ def synth_cases(ctx):
         [L("a"), I.PUSH_OFST(L("a"), -1)], [L("a"), I.PUSH_OFST(L("a"), 65535)], [L("a"), I.PUSH_OFST(L("a"), 65536)],
         [I.CONST("k", 5), I.PUSH_OFST(I.CONSTREF("k"), -5)], I.mkdebug(True, None) + ["STOP"], ["STOP"] + I.mkdebug(True, None) + [L("z")],
         [I.PUSHLABEL(L("code_end"))], [], ["PUSH0"], ["MCOPY"], ["TLOAD"], ["BLOBHASH"], ["PUSH33"], ["DUP17"], ["SWAP0"],
-        ["PREVRANDAO", "DIFFICULTY"], [I.DATA_ITEM(b"")], [I.CONST("k", 3), I.PUSH_OFST(I.CONSTREF("k"), 2**256 - 4)],
+        ["PREVRANDAO", "DIFFICULTY"], ["JUMP"], ["JUMP", "STOP"], [L("a"), "JUMP"], ["JUMPI"], [I.CONST("k", 1), "JUMP"], [I.DATA_ITEM(b"")], [I.CONST("k", 3), I.PUSH_OFST(I.CONSTREF("k"), 2**256 - 4)],
     ]
     for asm in errs:
         for evm in ("london", "paris", "shanghai", "cancun", "prague"):
